@@ -33,6 +33,7 @@ RULE = ("(a) enumerated: every index lambda the array API produces for the "
         "non-trivial = classified (not 'unknown') with >= 1 element, or a "
         "near-miss that must be refused; distinct by the canonical text of "
         "the index lambda and its operand shapes/dtypes")
+RULE += '  Round-4 additions: NaN / +-inf fills; reductions over axes whose length is a NumPy integer; hand-built reductions with a declared but unused bound or with one reduction variable on two axes (diagonal); logical/bitwise operations with 1, 2 and 3 operands.'
 ASSUMPTIONS = [
     "the NumPy interpretation of a HighLevelOp casts its result - and, for "
     "arithmetic operators and where, its operands - to the index lambda's "
